@@ -108,8 +108,8 @@ func walkBlob(blobMsg protoreflect.Message, prefix string, o *walkOpts) {
 		walk(e.ProtoReflect(), prefix+".<events>["+itoa(i)+"]", o)
 	}
 	if !proto.Equal(snapshot, before) {
-		nb := EncodeEvents(events)
-		blob.Data = nb.Data
+		nb := EncodeEvents(events) // (a translated batch is written back as proto3, whatever it came in as)
+		blob.Data, blob.EncodingType = nb.Data, nb.EncodingType
 	}
 }
 
@@ -145,7 +145,10 @@ func TranslateNamespaces(m proto.Message, mapping map[string]string) (sites, cha
 func SASites(m proto.Message) []Site {
 	var out []Site
 	walk(m.ProtoReflect(), "", &walkOpts{blobs: true, onSA: func(p string, mp protoreflect.Map) {
-		mp.Range(func(k protoreflect.MapKey, _ protoreflect.Value) bool { out = append(out, Site{p, k.String()}); return true })
+		mp.Range(func(k protoreflect.MapKey, _ protoreflect.Value) bool {
+			out = append(out, Site{p, k.String()})
+			return true
+		})
 	}})
 	return out
 }
